@@ -434,12 +434,45 @@ def run(fx, chk, tier):
                     adds.append(b)
         loops = [l for l in body.loops() if adds and adds[0] in l["body"]]
         ok = len(adds) == 1 and bool(loops)
+        fold_ok = False
+        if not ok:
+            # the accumulation written as a fold / sum over the fragments: the receiver is an iterator over self.trafs and
+            # the folding closure adds the run's sample_count to its accumulator
+            for f2 in cands:
+                b2 = body_of(f2)
+                if b2 is None:
+                    continue
+                for blk, t in b2.calls():
+                    tail = (t["callee"].get("path") or "").split("::")[-1]
+                    if tail not in ("fold", "sum", "try_fold") or not t["args"] or ".trafs" not in b2.canon_op(t["args"][0]):
+                        continue
+                    clos = [(a.get("const") or {}).get("fn") for a in t["args"] if isinstance(a, dict) and (a.get("const") or {}).get("fn") in fx.fns]
+                    for a in t["args"]:
+                        pl = op_place(a)
+                        sd = b2.single_def(pl["l"]) if pl is not None and not pl["p"] else None
+                        if sd and sd[2] == "assign" and sd[3]["k"] == "agg" and sd[3].get("ak") == "closure" and sd[3].get("def") in fx.fns:
+                            clos.append(sd[3]["def"])
+                    for c in clos:
+                        cb = body_of(fx.fns[c])
+                        if cb is None:
+                            continue
+                        for cblk, ct in cb.calls():
+                            ctail = (ct["callee"].get("path") or "").split("::")[-1]
+                            if ctail in ("checked_add", "saturating_add", "wrapping_add", "add") and any(".sample_count" in cb.canon_op(a) or "sample_count" in cb.op_str(a) for a in ct["args"]):
+                                fold_ok = True
+                        for cblk in cb.reach:
+                            for st_ in cb.stmts(cblk):
+                                if st_["k"] == "assign" and st_["rv"]["k"] in ("bin", "checked") and st_["rv"].get("op") in ("Add", "AddWithOverflow", "AddUnchecked") and any("sample_count" in cb.op_str(st_["rv"][x]) for x in ("a", "b")):
+                                    fold_ok = True
+                    if tail == "sum" and "sample_count" in b2.canon_op(t["args"][0]):
+                        fold_ok = True
         if ok:
             import loops as LP
             ls = LP.inventory(fx, fcn_acc["id"])
             L = [l for l in ls if adds[0] in l.blocks][0]
             nb, nt = LP.driver_next_call(body, L, ls)
             ok = nt is not None and "TrafBox" in (nt["callee"].get("full") or "")
+        ok = ok or fold_ok
         chk.require(ok, "R-COUNT", "sample_count", "sum of trun.sample_count over the loop on self.trafs", "the fragmented sample count does not accumulate trun.sample_count over all track fragments", site_of(fcn))
 
     # ---------------- R-FOOT
